@@ -223,8 +223,86 @@ pub fn run_c19(cfg: &RunCfg, trace: bool) -> RunOut {
             }
         }
     }
+    // the async physical backend sets time stamps through tokio's blocking pool: with a runtime in
+    // scope it must behave like the sync backend (same success, exact value, nothing else changed)
+    if cx.out.violations.is_empty() && cfg.specs[0].has_phys() && cfg.seed % 2 == 0 && !cfg.specs[0].has_ovl() {
+        if let Some((k, d, step)) = async_time_mirror(cfg, &mut cx.out) {
+            cx.out.violations.push(Violation { property: "C19".into(), key: format!("C19|{}/async|{}", shape, k), detail: d, step });
+        }
+    }
     cx.out.signature = sig;
     cx.out.nontrivial = setters_ok >= 2 && (setters_err >= 1 || setters_ok >= 4);
     cx.out.state_hashes.push(sig);
     cx.finish()
+}
+
+
+fn async_time_mirror(cfg: &RunCfg, out: &mut RunOut) -> Option<(String, String, usize)> {
+    use crate::asyncsim::*;
+    let rt = tokio::runtime::Builder::new_current_thread().build().ok()?;
+    let _guard = rt.enter();
+    let ab = abuild(&cfg.specs[0], crate::rng::mix(cfg.order_seed, 0), cfg.permute, crate::rng::mix(cfg.seed, 0xC19A), 20).ok()?;
+    out.count("probe.c19.async_runs");
+    let mut ax = AExec { root: ab.root.clone(), slots: Default::default() };
+    let mut world = World { m: vec![cfg.specs[0].view()], w: Default::default() };
+    let ameta = |ax: &mut AExec, p: &str| -> Result<MetaOut, ErrClass> {
+        let mut st = PollStats::default();
+        match ax.exec(&Op::Metadata(P::new(p)), &mut st) {
+            Res::Ok(Out::Meta(m)) => Ok(m),
+            Res::Err(e) => Err(e.class),
+            _ => Err(ErrClass::Other),
+        }
+    };
+    for (idx, op) in cfg.ops.iter().enumerate() {
+        let i = idx + 1;
+        let target = op.paths().first().and_then(|p| canon(&p.s).ok()).unwrap_or_default();
+        let before = world.clone();
+        let want = world.apply(op);
+        if let Op::SetTime(_, f, secs, nanos) = op {
+            let m0 = ameta(&mut ax, &target);
+            ab.ctl.on.store(true, std::sync::atomic::Ordering::SeqCst);
+            let mut st = PollStats::default();
+            let got = ax.exec(op, &mut st);
+            ab.ctl.on.store(false, std::sync::atomic::Ordering::SeqCst);
+            let m1 = ameta(&mut ax, &target);
+            if got.is_panic() {
+                return None;
+            }
+            if !before.m[0].exists(&target) {
+                continue;
+            }
+            let fi = field_idx(*f);
+            let value = crate::ops::to_nanos(crate::ops::from_parts(*secs, *nanos));
+            match (support(&cfg.specs[0], *f), &got) {
+                (Some(true), Res::Err(e)) => {
+                    return Some((format!("{}|supported-setter-failed:{:?}", op.kind(), e.class), format!("step {} {:?}: the async physical backend (tokio runtime in scope) failed where the sync one succeeds: {}", i, op, e.display), i));
+                }
+                (Some(true), Res::Ok(_)) => {
+                    out.count("probe.c19.async_setter_ok");
+                    if let (Ok(a), Ok(b)) = (&m0, &m1) {
+                        if b.times[fi] != Some(value) {
+                            return Some((format!("{}|field-not-set", op.kind()), format!("step {} {:?}: async metadata reports {:?}, set {}", i, op, b.times[fi], value), i));
+                        }
+                        if a.dir != b.dir || a.len != b.len || (0..3).any(|o| o != fi && a.times[o] != b.times[o]) {
+                            return Some((format!("{}|other-field-changed", op.kind()), format!("step {} {:?}: async metadata before {:?} after {:?}", i, op, a, b), i));
+                        }
+                    }
+                }
+                (Some(false), other) if !matches!(other, Res::Err(e) if e.class == ErrClass::NotSupported) => {
+                    return Some((format!("{}|unsupported-setter:{}", op.kind(), other.class()), format!("step {} {:?}: must report not-supported, got {}", i, op, short(other)), i));
+                }
+                _ => {}
+            }
+        } else {
+            if matches!(want, Want::Unspec) {
+                return None;
+            }
+            let mut st = PollStats::default();
+            let got = ax.exec(op, &mut st);
+            if judge(&want, &got).is_some() {
+                return None;
+            }
+        }
+    }
+    None
 }
